@@ -1,3 +1,14 @@
+//! mc-tensor: bounded-exhaustive checkers for rten-tensor (C06, C07, C08, C09).
+
+mod c07;
+mod iterx;
+mod kinds;
+mod layouts;
+
 fn main() {
-    vp_core::machinery_error("engine not built yet");
+    let prop = std::env::args().nth(1).unwrap_or_default();
+    match prop.as_str() {
+        "C07" => c07::run(vp_core::Ctx::from_env("C07")),
+        _ => vp_core::machinery_error(&format!("mc-tensor: unknown property '{prop}'")),
+    }
 }
